@@ -334,10 +334,10 @@ impl Iterator for Lexer {
 
                 while let Some(current) = self.current() {
                     dir_str.push(current);
-                    if let Some(next) = self.peek(1) {
-                        if !Self::is_symbol_char(next) {
-                            break;
-                        }
+                    // Stop on the last character of the directive (also at
+                    // the end of the file), so that `end` points at it
+                    if !self.peek(1).is_some_and(Self::is_symbol_char) {
+                        break;
                     }
                     self.consume_char();
                 }
@@ -514,10 +514,10 @@ impl Iterator for Lexer {
 
                 while let Some(current) = self.current() {
                     symbol_str.push(current);
-                    if let Some(next) = self.peek(1) {
-                        if !Self::is_symbol_item(next) {
-                            break;
-                        }
+                    // Stop on the last character of the symbol (also at the
+                    // end of the file), so that `end` points at it
+                    if !self.peek(1).is_some_and(Self::is_symbol_item) {
+                        break;
                     }
                     self.consume_char();
                 }
